@@ -36,6 +36,7 @@ type pwPath struct {
 	results   []ssa.Value       // resolved return operands
 	end       string            // return | panic | loop
 	revisits  int               // number of times a block was entered again (loop back edges taken)
+	revisited map[*ssa.BasicBlock]int // ... per block
 	loopHead  *ssa.BasicBlock   // for end == loop: the header that was re-entered
 	loopFree  bool              // ... without any undecided branch since the previous arrival (the loop cannot end)
 	consts    map[ssa.Value]constant.Value
@@ -157,6 +158,12 @@ type pathWalker struct {
 
 func (p *pwPath) clone() *pwPath {
 	q := &pwPath{seed: p.seed, loadHook: p.loadHook, revisits: p.revisits}
+	if p.revisited != nil {
+		q.revisited = make(map[*ssa.BasicBlock]int, len(p.revisited))
+		for k, v := range p.revisited {
+			q.revisited[k] = v
+		}
+	}
 	q.unknown = make(map[string]bool, len(p.unknown))
 	for k, v := range p.unknown {
 		q.unknown[k] = v
@@ -339,6 +346,31 @@ func (p *pwPath) constOfD(v ssa.Value, d int) (constant.Value, bool) {
 	return nil, false
 }
 
+// knownNil: v is the nil constant, or a value this path has decided to be nil.
+func (p *pwPath) knownNil(v ssa.Value) bool {
+	v = p.resolve(v)
+	if isNilConst(v) {
+		return true
+	}
+	for _, d := range p.decisions {
+		bo, ok := d.cond.(*ssa.BinOp)
+		if !ok || (bo.Op != token.EQL && bo.Op != token.NEQ) {
+			continue
+		}
+		x, y := p.resolve(bo.X), p.resolve(bo.Y)
+		if isNilConst(x) {
+			x, y = y, x
+		}
+		if !isNilConst(y) || x != v {
+			continue
+		}
+		if d.truth == (bo.Op == token.EQL) {
+			return true
+		}
+	}
+	return false
+}
+
 // decidedAs: the truth of cond on this path when it was decided (negations handled).
 func (p *pwPath) decidedAs(match func(ssa.Value) bool) (truth bool, idx int, found bool) {
 	for i, d := range p.decisions {
@@ -406,6 +438,10 @@ func (pw *pathWalker) run(s *pwState) []*pwState {
 			s.arrived[b] = len(s.p.decisions)
 			if s.visits[b] > 1 {
 				s.p.revisits++
+				if s.p.revisited == nil {
+					s.p.revisited = map[*ssa.BasicBlock]int{}
+				}
+				s.p.revisited[b]++
 				s.p.loopHead = b
 				s.p.loopFree = seenBefore && prevArr == len(s.p.decisions)
 				// the block's values are computed afresh in the next iteration
